@@ -165,7 +165,9 @@ pub struct Reqs {
     pub if_in_request: Vec<String>,
     pub prefixes: Vec<String>,
     /// 0 = SliceSignedHeaderRequirements::new, 1 = VecSignedHeaderRequirements::new,
-    /// 2 = VecSignedHeaderRequirements::default() + add_* calls
+    /// 2 = VecSignedHeaderRequirements::default() + add_* calls,
+    /// 3 = VecSignedHeaderRequirements::new with surplus entries that are removed again (remove_* in another spelling),
+    /// 4 = default() + add_* of surplus and declared entries, surplus removed again
     pub route: u8,
 }
 
@@ -277,6 +279,9 @@ pub enum PrincipalSpec {
     Service { name: String, region: Option<String>, suffix: String },
     /// role + service
     Two { account: String, role: String, service: String },
+    Federated { account: String, name: String },
+    Root { account: String },
+    Canonical { id: String },
 }
 
 /// Scripted behaviour of the key provider for one validation.
